@@ -300,4 +300,8 @@ def run(ctx, ck):
     gg = m.func('mininec.Geobj.compute_ground')
     ok = any(norm(s) == 'self.n = n' for s in gg.body())
     ck.ob('R-ORDER.positions-after-sort', gg.qual, ok, gg.loc(), 'Geobj.compute_ground stores the position')
+    from ._endidx import check_end_index
+    ck.rule('R-COUNT.end-index', 'predicted index of the end pulses == number of pulses created before them (all end states)')
+    ncases = check_end_index(ctx, ck)
+    ck.floor('end-state cases', ncases, 30)
     ck.undecided += ['junction pulse belongs to the later-tagged object for every topology (runtime)']
